@@ -226,13 +226,15 @@ pub fn rare_keygen_seeds_mode(ctx: &Ctx, p: &refimpl::Params, n_scan: usize, cte
         out
     });
     all.extend(cheap.into_iter().flatten());
-    // keep at most 24 per tag
+    // keep at most 24 per tag (1000 for wrap events)
     let mut per_tag: std::collections::HashMap<String, usize> = std::collections::HashMap::new();
     all.retain(|r| {
         let mut keep = false;
         for t in &r.tags {
             let c = per_tag.entry(t.clone()).or_insert(0);
-            if *c < 24 {
+            // wrap events are position-specific (a slip may concern one coefficient index only): keep them all
+            let cap = if t.starts_with("t-wrap") { 1000 } else { 24 };
+            if *c < cap {
                 *c += 1;
                 keep = true;
             }
@@ -263,4 +265,24 @@ pub fn rareseeds_stage(ctx: &Ctx) -> StageOut {
     }
     acc.sample(Value::Object(out));
     StageOut::new("rareseeds", "instrumented-reference scan for rare key-generation events", false, acc)
+}
+
+
+/// c~ values with extreme SampleInBall consumption (fixtures/sib, found by brute force; see props/sib.rs)
+pub fn sib_fixtures(ctx: &Ctx, set: u32) -> Vec<(Vec<u8>, u64)> {
+    let dir = ctx.fixtures.join("sib");
+    let Ok(rd) = std::fs::read_dir(&dir) else { return vec![] };
+    let mut out = Vec::new();
+    let mut paths: Vec<_> = rd.flatten().map(|e| e.path()).collect();
+    paths.sort();
+    for path in paths {
+        let Ok(text) = std::fs::read_to_string(&path) else { continue };
+        let Ok(v) = serde_json::from_str::<Value>(&text) else { continue };
+        if v["set"].as_u64() == Some(u64::from(set)) {
+            if let Some(h) = v["c_tilde"].as_str() {
+                out.push((crate::util::unhex(h), v["index_bytes"].as_u64().unwrap_or(0)));
+            }
+        }
+    }
+    out
 }
